@@ -8,6 +8,7 @@ CONSTANTS
   U16Classes <- C_U16
   NameClasses <- C_Name
   Pairs = FALSE
+  CutInCtx = FALSE
   CutDevs = FALSE
 CONSTRAINT Emit
 INVARIANTS InvRoundTrip InvRejects InvEnd InvConsume InvAlloc
